@@ -1,41 +1,10 @@
 import Pendulum.Proofs.WeekNav2
-/-! DateTime level of C16: when the wall times the algorithm constructs are not skipped in the zone
-(`Plain`), the zone-aware functions land on the Date-level result at 00:00 (or at the kept time). -/
+import Pendulum.Proofs.StartOf
+/-! DateTime level of C16 on the repaired tree: every function (without `keep_time`) returns
+`_boundary` (`StartOf.edge`) of the Date-level result; `boundaryOrd` is characterised through the lemmas of
+`Proofs/StartOf.lean` (`edge_start_eq`, `startVal`). -/
 namespace Pendulum.WeekNav
 open Pendulum Pendulum.Cal Pendulum.DTOps
-
-/-- the wall value `w` is constructed unchanged by `DateTime.create` in zone reference `z`
-    (whatever fold is passed): it is not skipped and lies inside years 1..9999 -/
-def Plain (z : ZRef) (w : Int) : Prop := ∀ f, ∃ f', create z w f false = .ok ⟨z, w, f'⟩
-
-/-- `Plain` on the midnights and on the time of day `t` of all days `lo..hi` -/
-def RegularOn (z : ZRef) (t lo hi : Int) : Prop :=
-  ∀ k, lo ≤ k → k ≤ hi → Plain z (wallOf k 0) ∧ Plain z (wallOf k t)
-
-theorem plain_naive (w : Int) : Plain .naive w := fun f => ⟨f, rfl⟩
-theorem plain_fixed (off w : Int) : Plain (.fixed off) w := fun _ => ⟨false, rfl⟩
-
-/-- for a named zone: not skipped (the code's own test `offset_after > offset_before` fails) and in range -/
-theorem plain_named (zt : Zone.Z) (w : Int) (hs : ¬ zt.woff true w > zt.woff false w) (hr : inRange w = true) :
-    Plain (.named zt) w := by
-  intro f
-  refine ⟨f, ?_⟩
-  unfold create Zone.convertNaive
-  simp only [hs, if_false]
-  simp [hr]
-
-/-- conversely a skipped wall value is never `Plain` -/
-theorem not_plain_of_skipped (zt : Zone.Z) (w : Int) (hs : zt.woff true w > zt.woff false w) :
-    ¬ Plain (.named zt) w := by
-  intro h
-  obtain ⟨f', hf⟩ := h true
-  unfold create Zone.convertNaive at hf
-  simp only [hs, if_true, Bool.false_eq_true, if_false] at hf
-  split at hf
-  · injection hf with hf
-    injection hf with _ hw _
-    omega
-  · cases hf
 
 theorem dayOrd_wallOf (o t : Int) (ht : 0 ≤ t ∧ t < DAY) : dayOrd (wallOf o t) = o ∧ tod (wallOf o t) = t := by
   unfold dayOrd tod wallOf DAY at *; omega
@@ -48,78 +17,75 @@ theorem tod_range (w : Int) : 0 ≤ tod w ∧ tod w < DAY := by unfold tod DAY; 
 theorem wallOf_add (o t n : Int) : wallOf o t + n * DAY = wallOf (o + n) t := by
   unfold wallOf DAY; omega
 
-theorem startOfDay_plain (v : V) (h : Plain v.z (wallOf (dayOrd v.w) 0)) :
-    ∃ f', startOfDay v = .ok ⟨v.z, wallOf (dayOrd v.w) 0, f'⟩ := h v.fold
-
-theorem addDays_plain (v : V) (n : Int) (h : Plain v.z (v.w + n * DAY)) :
-    ∃ f', addDays v n = .ok ⟨v.z, v.w + n * DAY, f'⟩ := h true
-
-theorem setYMD_plain (v : V) (y m d : Int) (hv : validDate y m d)
-    (h : Plain v.z (wallOf (ymd2ord y m d) (tod v.w))) :
-    ∃ f', setYMD v y m d = .ok ⟨v.z, wallOf (ymd2ord y m d) (tod v.w), f'⟩ := by
-  unfold setYMD; rw [if_pos hv]; exact h v.fold
-
 theorem bind_ok {α β ε : Type} (a : α) (f : α → Except ε β) : (Except.ok a : Except ε α).bind f = f a := rfl
 
-/-- `DateTime.next(wd)` -/
-theorem dtNext_plain (v : V) (wd : Int) (hwd : 0 ≤ wd ∧ wd ≤ 6)
-    (hs : Plain v.z (wallOf (dayOrd v.w) 0)) (ht : Plain v.z (wallOf (next (dayOrd v.w) wd) 0)) :
-    ∃ f', dtNext v wd false = .ok ⟨v.z, wallOf (next (dayOrd v.w) wd) 0, f'⟩ := by
-  obtain ⟨f1, h1⟩ := startOfDay_plain v hs
-  unfold dtNext
-  simp only [Bool.false_eq_true, if_false, h1, bind_ok]
-  have hd := dayOrd_wallOf (dayOrd v.w) 0 (by unfold DAY; omega)
-  have e : wallOf (dayOrd v.w) 0 + ((wd - vdow ⟨v.z, wallOf (dayOrd v.w) 0, f1⟩ - 1) % 7 + 1) * DAY
-      = wallOf (next (dayOrd v.w) wd) 0 := by
-    rw [wallOf_add]; unfold vdow; simp only [hd.1]
-    rw [(next_closed (dayOrd v.w) wd hwd)]; unfold firstIn dow; congr 1; omega
-  have := addDays_plain ⟨v.z, wallOf (dayOrd v.w) 0, f1⟩ ((wd - vdow ⟨v.z, wallOf (dayOrd v.w) 0, f1⟩ - 1) % 7 + 1)
-    (by simp only [e]; exact ht)
-  simp only [e] at this
-  exact this
+theorem boundaryYMD_valid (v : V) (y m d : Int) (hv : validDate y m d) :
+    boundaryYMD v y m d = boundaryOrd v (ymd2ord y m d) := by unfold boundaryYMD; rw [if_pos hv]
 
-theorem dtNext_keep_plain (v : V) (wd : Int) (hwd : 0 ≤ wd ∧ wd ≤ 6)
-    (ht : Plain v.z (wallOf (next (dayOrd v.w) wd) (tod v.w))) :
-    ∃ f', dtNext v wd true = .ok ⟨v.z, wallOf (next (dayOrd v.w) wd) (tod v.w), f'⟩ := by
-  unfold dtNext
-  simp only [if_true, bind_ok]
-  have e : v.w + ((wd - vdow v - 1) % 7 + 1) * DAY = wallOf (next (dayOrd v.w) wd) (tod v.w) := by
-    conv => lhs; rw [← wallOf_split v.w]
-    rw [wallOf_add]; unfold vdow
-    rw [(next_closed (dayOrd v.w) wd hwd)]; unfold firstIn dow; congr 1; omega
-  have := addDays_plain v ((wd - vdow v - 1) % 7 + 1) (by rw [e]; exact ht)
-  rw [e] at this
-  exact this
+/-- `_boundary` depends on the instance only through its zone and fold -/
+theorem boundaryOrd_congr (v v' : V) (o : Int) (hz : v.z = v'.z) (hf : v.fold = v'.fold) :
+    boundaryOrd v o = boundaryOrd v' o := by unfold boundaryOrd; rw [hz, hf]
 
-/-- `DateTime.previous(wd)` -/
-theorem dtPrevious_plain (v : V) (wd : Int) (hwd : 0 ≤ wd ∧ wd ≤ 6)
-    (hs : Plain v.z (wallOf (dayOrd v.w) 0)) (ht : Plain v.z (wallOf (previous (dayOrd v.w) wd) 0)) :
-    ∃ f', dtPrevious v wd false = .ok ⟨v.z, wallOf (previous (dayOrd v.w) wd) 0, f'⟩ := by
-  obtain ⟨f1, h1⟩ := startOfDay_plain v hs
-  unfold dtPrevious
-  simp only [Bool.false_eq_true, if_false, h1, bind_ok]
-  have hd := dayOrd_wallOf (dayOrd v.w) 0 (by unfold DAY; omega)
-  have e : wallOf (dayOrd v.w) 0 + (-((vdow ⟨v.z, wallOf (dayOrd v.w) 0, f1⟩ - wd - 1) % 7 + 1)) * DAY
-      = wallOf (previous (dayOrd v.w) wd) 0 := by
-    rw [wallOf_add]; unfold vdow; simp only [hd.1]
-    rw [(previous_closed (dayOrd v.w) wd hwd)]; unfold lastIn dow; congr 1; omega
-  have := addDays_plain ⟨v.z, wallOf (dayOrd v.w) 0, f1⟩ (-((vdow ⟨v.z, wallOf (dayOrd v.w) 0, f1⟩ - wd - 1) % 7 + 1))
-    (by simp only [e]; exact ht)
-  simp only [e] at this
-  exact this
+/-! ### what `_boundary` returns -/
 
-theorem dtPrevious_keep_plain (v : V) (wd : Int) (hwd : 0 ≤ wd ∧ wd ≤ 6)
-    (ht : Plain v.z (wallOf (previous (dayOrd v.w) wd) (tod v.w))) :
-    ∃ f', dtPrevious v wd true = .ok ⟨v.z, wallOf (previous (dayOrd v.w) wd) (tod v.w), f'⟩ := by
-  unfold dtPrevious
-  simp only [if_true, bind_ok]
-  have e : v.w + (-((vdow v - wd - 1) % 7 + 1)) * DAY = wallOf (previous (dayOrd v.w) wd) (tod v.w) := by
-    conv => lhs; rw [← wallOf_split v.w]
-    rw [wallOf_add]; unfold vdow
-    rw [(previous_closed (dayOrd v.w) wd hwd)]; unfold lastIn dow; congr 1; omega
-  have := addDays_plain v (-((vdow v - wd - 1) % 7 + 1)) (by rw [e]; exact ht)
-  rw [e] at this
-  exact this
+theorem boundaryOrd_naive (w : Int) (f : Bool) (o : Int) :
+    boundaryOrd ⟨.naive, w, f⟩ o = .ok ⟨.naive, wallOf o 0, f⟩ := rfl
+
+theorem boundaryOrd_fixed (off w : Int) (f : Bool) (o : Int) :
+    boundaryOrd ⟨.fixed off, w, f⟩ o = .ok ⟨.fixed off, wallOf o 0, false⟩ := rfl
+
+theorem boundaryOrd_named (zt : Zone.Z) (w : Int) (f : Bool) (o : Int) :
+    boundaryOrd ⟨.named zt, w, f⟩ o =
+      if inRange (StartOf.startVal zt (wallOf o 0) f).w then .ok (StartOf.startVal zt (wallOf o 0) f)
+      else .error .overflow := StartOf.edge_start_eq zt (wallOf o 0) f
+
+/-- wall time of the value `_boundary` builds: 00:00 of the day, moved forward by the length of the gap when
+    00:00 is skipped — the same for both folds of the instance -/
+theorem startVal_wall (zt : Zone.Z) (T : Int) (f : Bool) :
+    (StartOf.startVal zt T f).w =
+      if zt.woff true T > zt.woff false T then T + (zt.woff true T - zt.woff false T) else T := by
+  unfold StartOf.startVal
+  split
+  · rfl
+  · split <;> rfl
+
+/-! ### next / previous -/
+
+theorem one_step (o wd : Int) (hwd : 0 ≤ wd ∧ wd ≤ 6) :
+    next o wd = o + ((wd - dow o - 1) % 7 + 1) ∧ previous o wd = o - ((dow o - wd - 1) % 7 + 1) := by
+  have h1 := next_closed o wd hwd
+  have h2 := previous_closed o wd hwd
+  unfold firstIn lastIn dow at *; omega
+
+theorem dtNext_eq (v : V) (wd : Int) (hwd : 0 ≤ wd ∧ wd ≤ 6) :
+    dtNext v wd false = boundaryOrd v (next (dayOrd v.w) wd) := by
+  unfold dtNext vdow
+  simp only [Bool.false_eq_true, if_false]
+  rw [(one_step (dayOrd v.w) wd hwd).1]
+
+theorem dtPrevious_eq (v : V) (wd : Int) (hwd : 0 ≤ wd ∧ wd ≤ 6) :
+    dtPrevious v wd false = boundaryOrd v (previous (dayOrd v.w) wd) := by
+  unfold dtPrevious vdow
+  simp only [Bool.false_eq_true, if_false]
+  rw [(one_step (dayOrd v.w) wd hwd).2]
+
+theorem add_days_wall (w n : Int) : w + n * DAY = wallOf (dayOrd w + n) (tod w) := by
+  rw [← wallOf_add, wallOf_split]
+
+theorem dtNext_keep_eq (v : V) (wd : Int) (hwd : 0 ≤ wd ∧ wd ≤ 6) :
+    dtNext v wd true = create v.z (wallOf (next (dayOrd v.w) wd) (tod v.w)) true false := by
+  unfold dtNext addDays vdow
+  simp only [if_true]
+  rw [add_days_wall, (one_step (dayOrd v.w) wd hwd).1]
+
+theorem dtPrevious_keep_eq (v : V) (wd : Int) (hwd : 0 ≤ wd ∧ wd ≤ 6) :
+    dtPrevious v wd true = create v.z (wallOf (previous (dayOrd v.w) wd) (tod v.w)) true false := by
+  unfold dtPrevious addDays vdow
+  simp only [if_true]
+  rw [add_days_wall, (one_step (dayOrd v.w) wd hwd).2]
+  congr 2
+
+/-! ### first_of / last_of month -/
 
 theorem firstDom_valid (y m wd : Int) (hm : 1 ≤ m ∧ m ≤ 12) (hwd : 0 ≤ wd ∧ wd ≤ 6) : validDate y m (firstDom y m wd) := by
   have h := firstDom_eq y m wd hwd
@@ -131,51 +97,53 @@ theorem lastDom_valid (y m wd : Int) (hm : 1 ≤ m ∧ m ≤ 12) (hwd : 0 ≤ wd
   have hd := dimL_pos (isLeap y) m; rw [← daysInMonth_eq] at hd
   exact ⟨hm.1, hm.2, by omega, by omega⟩
 
-/-- `DateTime.first_of("month", wd)` -/
-theorem dtFirstOfMonth_plain (v : V) (wd : Option Int) (hwd : ∀ w, wd = some w → 0 ≤ w ∧ w ≤ 6)
-    (hs : Plain v.z (wallOf (dayOrd v.w) 0)) (ht : Plain v.z (wallOf (firstOfMonth (dayOrd v.w) wd) 0)) :
-    ∃ f', dtFirstOfMonth v wd = .ok ⟨v.z, wallOf (firstOfMonth (dayOrd v.w) wd) 0, f'⟩ := by
-  obtain ⟨f1, h1⟩ := startOfDay_plain v hs
+theorem dtFirstOfMonth_eq (v : V) (wd : Option Int) (hwd : ∀ w, wd = some w → 0 ≤ w ∧ w ≤ 6) :
+    dtFirstOfMonth v wd = boundaryOrd v (firstOfMonth (dayOrd v.w) wd) := by
   obtain ⟨y, m, d, hf, hv, he⟩ := fields_of (dayOrd v.w)
   have hm : 1 ≤ m ∧ m ≤ 12 := ⟨hv.1, hv.2.1⟩
-  have hd := dayOrd_wallOf (dayOrd v.w) 0 (by unfold DAY; omega)
-  unfold dtFirstOfMonth
-  simp only [h1, bind_ok, ymdOf, hd.1, hf]
-  unfold firstOfMonth at ht ⊢
-  simp only [hf] at ht ⊢
+  unfold dtFirstOfMonth firstOfMonth ymdOf
+  simp only [hf]
   cases wd with
-  | none =>
-    simp only at ht ⊢
-    have := setYMD_plain ⟨v.z, wallOf (dayOrd v.w) 0, f1⟩ y m 1 (valid_first y m hm) (by simp only [hd.2]; exact ht)
-    simp only [hd.2] at this; exact this
-  | some w =>
-    simp only at ht ⊢
-    have := setYMD_plain ⟨v.z, wallOf (dayOrd v.w) 0, f1⟩ y m (firstDom y m w) (firstDom_valid y m w hm (hwd w rfl))
-      (by simp only [hd.2]; exact ht)
-    simp only [hd.2] at this; exact this
+  | none => exact boundaryYMD_valid v y m 1 (valid_first y m hm)
+  | some w => exact boundaryYMD_valid v y m _ (firstDom_valid y m w hm (hwd w rfl))
 
-/-- `DateTime.last_of("month", wd)` -/
-theorem dtLastOfMonth_plain (v : V) (wd : Option Int) (hwd : ∀ w, wd = some w → 0 ≤ w ∧ w ≤ 6)
-    (hs : Plain v.z (wallOf (dayOrd v.w) 0)) (ht : Plain v.z (wallOf (lastOfMonth (dayOrd v.w) wd) 0)) :
-    ∃ f', dtLastOfMonth v wd = .ok ⟨v.z, wallOf (lastOfMonth (dayOrd v.w) wd) 0, f'⟩ := by
-  obtain ⟨f1, h1⟩ := startOfDay_plain v hs
+theorem dtLastOfMonth_eq (v : V) (wd : Option Int) (hwd : ∀ w, wd = some w → 0 ≤ w ∧ w ≤ 6) :
+    dtLastOfMonth v wd = boundaryOrd v (lastOfMonth (dayOrd v.w) wd) := by
   obtain ⟨y, m, d, hf, hv, he⟩ := fields_of (dayOrd v.w)
   have hm : 1 ≤ m ∧ m ≤ 12 := ⟨hv.1, hv.2.1⟩
-  have hd := dayOrd_wallOf (dayOrd v.w) 0 (by unfold DAY; omega)
-  unfold dtLastOfMonth
-  simp only [h1, bind_ok, ymdOf, hd.1, hf]
-  unfold lastOfMonth at ht ⊢
-  simp only [hf] at ht ⊢
+  unfold dtLastOfMonth lastOfMonth ymdOf
+  simp only [hf]
   cases wd with
-  | none =>
-    simp only at ht ⊢
-    have := setYMD_plain ⟨v.z, wallOf (dayOrd v.w) 0, f1⟩ y m (daysInMonth y m) (valid_last y m hm) (by simp only [hd.2]; exact ht)
-    simp only [hd.2] at this; exact this
-  | some w =>
-    simp only at ht ⊢
-    have := setYMD_plain ⟨v.z, wallOf (dayOrd v.w) 0, f1⟩ y m (lastDom y m w) (lastDom_valid y m w hm (hwd w rfl))
-      (by simp only [hd.2]; exact ht)
-    simp only [hd.2] at this; exact this
+  | none => exact boundaryYMD_valid v y m _ (valid_last y m hm)
+  | some w => exact boundaryYMD_valid v y m _ (lastDom_valid y m w hm (hwd w rfl))
+
+/-! ### nth_of month -/
+
+/-- the first moment of day `o` in zone `z` exists and lies on day `o` — false only when the whole calendar day is
+    skipped in the zone (Pacific/Kiritimati 1994-12-31, Pacific/Apia 2011-12-30) or lies outside years 1..9999 -/
+def OnDay (z : ZRef) (o : Int) : Prop :=
+  ∀ (w : Int) (f : Bool), ∃ r, boundaryOrd ⟨z, w, f⟩ o = .ok r ∧ r.z = z ∧ dayOrd r.w = o
+
+theorem onDay_naive (o : Int) : OnDay .naive o := fun w f =>
+  ⟨_, boundaryOrd_naive w f o, rfl, (dayOrd_wallOf o 0 (by unfold DAY; omega)).1⟩
+
+theorem onDay_fixed (off o : Int) : OnDay (.fixed off) o := fun w f =>
+  ⟨_, boundaryOrd_fixed off w f o, rfl, (dayOrd_wallOf o 0 (by unfold DAY; omega)).1⟩
+
+/-- for a named zone it is enough that 00:00 is not skipped, or that the gap that skips it is shorter than a day -/
+theorem onDay_named (zt : Zone.Z) (o : Int)
+    (hg : zt.woff true (wallOf o 0) - zt.woff false (wallOf o 0) < DAY)
+    (hr : ∀ f, inRange (StartOf.startVal zt (wallOf o 0) f).w = true) : OnDay (.named zt) o := by
+  intro w f
+  refine ⟨StartOf.startVal zt (wallOf o 0) f, ?_, ?_, ?_⟩
+  · rw [boundaryOrd_named, if_pos (hr f)]
+  · unfold StartOf.startVal; split
+    · rfl
+    · split <;> rfl
+  · rw [startVal_wall]
+    split
+    · unfold dayOrd wallOf DAY at *; omega
+    · exact (dayOrd_wallOf o 0 (by unfold DAY; omega)).1
 
 theorem iterNext_bounds (n : Nat) : ∀ (o wd : Int), 0 ≤ wd ∧ wd ≤ 6 → o ≤ iterNext n o wd ∧ iterNext n o wd ≤ o + 7 * n := by
   induction n with
@@ -186,79 +154,61 @@ theorem iterNext_bounds (n : Nat) : ∀ (o wd : Int), 0 ≤ wd ∧ wd ≤ 6 → 
     have := ih (next o wd) wd hwd
     simp only [iterNext]; omega
 
-/-- `for _ in range(n): dt = dt.next(wd)` on a value sitting at midnight of day `k` -/
-theorem dtIterNext_plain (n : Nat) : ∀ (z : ZRef) (k : Int) (f : Bool) (wd : Int), 0 ≤ wd ∧ wd ≤ 6 →
-    (∀ j, k ≤ j → j ≤ k + 7 * n → Plain z (wallOf j 0)) →
-    ∃ f', dtIterNext n ⟨z, wallOf k 0, f⟩ wd = .ok ⟨z, wallOf (iterNext n k wd) 0, f'⟩ := by
+/-- `for _ in range(n): dt = dt.next(wd)` follows the Date-level walk as long as no walked day is skipped entirely -/
+theorem dtIterNext_onDay (n : Nat) : ∀ (v : V) (wd : Int), 0 ≤ wd ∧ wd ≤ 6 →
+    (∀ j, dayOrd v.w < j → j ≤ dayOrd v.w + 7 * n → OnDay v.z j) →
+    ∃ r, dtIterNext n v wd = .ok r ∧ r.z = v.z ∧ dayOrd r.w = iterNext n (dayOrd v.w) wd := by
   induction n with
-  | zero => intro z k f wd _ _; exact ⟨f, rfl⟩
+  | zero => intro v wd _ _; exact ⟨v, rfl, rfl, rfl⟩
   | succ n ih =>
-    intro z k f wd hwd hp
-    have hd := dayOrd_wallOf k 0 (by unfold DAY; omega)
-    obtain ⟨_, h2, h3, _⟩ := next_spec' k wd hwd
-    obtain ⟨f1, h1⟩ := dtNext_plain ⟨z, wallOf k 0, f⟩ wd hwd
-      (by simp only [hd.1]; exact hp k (by omega) (by omega))
-      (by simp only [hd.1]; exact hp _ (by omega) (by omega))
-    simp only [hd.1] at h1
-    simp only [dtIterNext, iterNext, h1, bind_ok]
-    exact ih z (next k wd) f1 wd hwd (fun j a b => hp j (by omega) (by omega))
+    intro v wd hwd hp
+    obtain ⟨_, h2, h3, _⟩ := next_spec' (dayOrd v.w) wd hwd
+    obtain ⟨r1, e1, z1, d1⟩ := hp (next (dayOrd v.w) wd) h2 (by omega) v.w v.fold
+    have hv : (⟨v.z, v.w, v.fold⟩ : V) = v := rfl
+    rw [hv] at e1
+    obtain ⟨r, e, z, d⟩ := ih r1 wd hwd (by
+      intro j a b; rw [z1]; rw [d1] at a b; exact hp j (by omega) (by omega))
+    refine ⟨r, ?_, by rw [z, z1], by rw [d, d1]; rfl⟩
+    simp only [dtIterNext, dtNext_eq v wd hwd, e1, bind_ok, e]
 
-/-- `DateTime.nth_of("month", n, wd)`: when the midnights of the days `first of month … + 7 n`, the midnight of the
-    instance's day and the instance's time of day on those days are all constructible unchanged, the result is the
-    Date-level result at 00:00 in the same zone (and `PendulumException` in exactly the same cases) -/
-theorem dtNthOfMonth_plain (v : V) (nth : Nat) (wd : Int) (hn : 1 ≤ nth) (hwd : 0 ≤ wd ∧ wd ≤ 6)
-    (hs : Plain v.z (wallOf (dayOrd v.w) 0))
-    (hp : RegularOn v.z (tod v.w) (uLo .month (dayOrd v.w)) (uLo .month (dayOrd v.w) + 7 * nth)) :
-    (∃ r f', nthOfMonth (dayOrd v.w) nth wd = some r ∧ dtNthOfMonth v nth wd = .ok (some ⟨v.z, wallOf r 0, f'⟩)) ∨
-    (nthOfMonth (dayOrd v.w) nth wd = none ∧ dtNthOfMonth v nth wd = .ok none) := by
-  have hlen := unit_len .month (dayOrd v.w)
-  have hfi := firstIn_spec (uLo .month (dayOrd v.w)) wd hwd
+/-- `DateTime.nth_of("month", n, wd)` = `_boundary` of the Date-level result, `PendulumException` in exactly the same
+    cases, provided none of the days `first of month … first of month + 7 n` is skipped entirely in the zone -/
+theorem dtNthOfMonth_eq (v : V) (nth : Nat) (wd : Int) (hn : 1 ≤ nth) (hwd : 0 ≤ wd ∧ wd ≤ 6)
+    (hp : ∀ j, uLo .month (dayOrd v.w) ≤ j → j ≤ uLo .month (dayOrd v.w) + 7 * nth → OnDay v.z j) :
+    dtNthOfMonth v nth wd =
+      match nthOfMonth (dayOrd v.w) nth wd with
+      | some r => (boundaryOrd v r).map some
+      | none => .ok none := by
   by_cases h1 : nth = 1
   · subst h1
-    left
-    have hfo : firstOfMonth (dayOrd v.w) (some wd) = firstIn (uLo .month (dayOrd v.w)) wd := firstOfMonth_some _ _ hwd
-    obtain ⟨f', h⟩ := dtFirstOfMonth_plain v (some wd) (by intro w hw; cases hw; exact hwd) hs
-      (by rw [hfo]; exact (hp _ (by omega) (by omega)).1)
-    refine ⟨_, f', by unfold nthOfMonth; rw [if_pos rfl], ?_⟩
-    unfold dtNthOfMonth; rw [if_pos rfl, h]; rfl
+    unfold dtNthOfMonth nthOfMonth
+    rw [if_pos rfl, if_pos rfl, dtFirstOfMonth_eq v (some wd) (by intro w hw; cases hw; exact hwd)]
   · obtain ⟨y, m, d, hf, hv, he⟩ := fields_of (dayOrd v.w)
     have hm : 1 ≤ m ∧ m ≤ 12 := ⟨hv.1, hv.2.1⟩
     have hlo : firstOfMonth (dayOrd v.w) none = ymd2ord y m 1 := by simp only [firstOfMonth, hf]
     have hlo' : uLo .month (dayOrd v.w) = ymd2ord y m 1 := by simp only [uLo, hf]
-    rw [hlo'] at hp hfi hlen
-    have hhi' : uHi .month (dayOrd v.w) = ymd2ord y m 1 + daysInMonth y m - 1 := by simp only [uHi, hf]
-    obtain ⟨f0, h0⟩ := dtFirstOfMonth_plain v none (by intro w hw; cases hw) hs
-      (by rw [hlo]; exact (hp _ (by omega) (by omega)).1)
-    rw [hlo] at h0
-    have hd0 := dayOrd_wallOf (ymd2ord y m 1) 0 (by unfold DAY; omega)
+    rw [hlo'] at hp
+    have hfi := firstIn_spec (ymd2ord y m 1) wd hwd
+    obtain ⟨r0, e0, z0, d0⟩ := hp (ymd2ord y m 1) (by omega) (by omega) v.w v.fold
+    have hvv : (⟨v.z, v.w, v.fold⟩ : V) = v := rfl
+    rw [hvv] at e0
     have hj1 := ord2ymd_ymd2ord y m 1 (valid_first y m hm)
-    -- the walk
     have hcnt : nth - (if dow (ymd2ord y m 1) = wd then 1 else 0) ≤ nth := by split <;> omega
-    obtain ⟨f2, h2⟩ := dtIterNext_plain (nth - (if dow (ymd2ord y m 1) = wd then 1 else 0)) v.z (ymd2ord y m 1) f0 wd hwd
-      (fun j a b => (hp j a (by omega)).1)
+    obtain ⟨r, e, z, dd⟩ := dtIterNext_onDay (nth - (if dow (ymd2ord y m 1) = wd then 1 else 0)) r0 wd hwd (by
+      intro j a b; rw [z0]; rw [d0] at a b; exact hp j (by omega) (by omega))
+    rw [d0] at dd
     have hr := iterNext_nth (ymd2ord y m 1) wd nth hn hwd
-    generalize hrr : iterNext (nth - (if dow (ymd2ord y m 1) = wd then 1 else 0)) (ymd2ord y m 1) wd = r at h2 hr
-    have hge : ymd2ord y m 1 ≤ r := by omega
-    have hle : r ≤ ymd2ord y m 1 + 7 * nth := by omega
-    have hdr := dayOrd_wallOf r 0 (by unfold DAY; omega)
+    generalize hrr : iterNext (nth - (if dow (ymd2ord y m 1) = wd then 1 else 0)) (ymd2ord y m 1) wd = R at dd hr
+    have hge : ymd2ord y m 1 ≤ R := by omega
     unfold dtNthOfMonth nthOfMonth
-    simp only [h1, if_false, h0, bind_ok, ymdOf, hd0.1, hj1, vdow, hf, hlo, hrr, h2, hdr.1]
-    by_cases hin : r ≤ ymd2ord y m 1 + daysInMonth y m - 1
-    · left
-      have hday := day_in_month y m r hm ⟨hge, hin⟩
+    simp only [h1, if_false, dtFirstOfMonth_eq v none (by intro w hw; cases hw), hlo, e0, bind_ok, ymdOf, d0, hj1,
+      vdow, hf, hrr, e, dd]
+    by_cases hin : R ≤ ymd2ord y m 1 + daysInMonth y m - 1
+    · have hday := day_in_month y m R hm ⟨hge, hin⟩
       simp only [hday, and_self, if_true]
-      have hvd : validDate y m (r - ymd2ord y m 1 + 1) := ⟨hm.1, hm.2, by omega, by omega⟩
-      have hord : ymd2ord y m (r - ymd2ord y m 1 + 1) = r := by rw [ord_eq]; omega
-      obtain ⟨f3, h3⟩ := setYMD_plain v y m _ hvd (by rw [hord]; exact (hp r hge hle).2)
-      rw [hord] at h3
-      have htr := tod_range v.w
-      have hd3 := dayOrd_wallOf r (tod v.w) htr
-      obtain ⟨f4, h4⟩ := startOfDay_plain ⟨v.z, wallOf r (tod v.w), f3⟩ (by simp only [hd3.1]; exact (hp r hge hle).1)
-      simp only [hd3.1] at h4
-      refine ⟨r, f4, by rw [hord], ?_⟩
-      rw [h3, bind_ok, h4]; rfl
-    · right
-      have : ¬ ((ord2ymd r).1 = y ∧ (ord2ymd r).2.1 = m) := fun h => hin ((in_month_iff y m r hm).mp h).2
-      simp only [this, if_false, and_self]
+      have hvd : validDate y m (R - ymd2ord y m 1 + 1) := ⟨hm.1, hm.2, by omega, by omega⟩
+      rw [boundaryYMD_valid v y m _ hvd]
+    · have : ¬ ((ord2ymd R).1 = y ∧ (ord2ymd R).2.1 = m) := fun h => hin ((in_month_iff y m R hm).mp h).2
+      simp only [this, if_false]
 
 end Pendulum.WeekNav
